@@ -327,3 +327,11 @@ SPECS = [
          native_patch=env.native_env_zlib, reset=_reset,
          desc="thread-pool server with all workers busy: SocketServer_Threadpool.loop/events/denyConnection for a client sending connect/garbage/nothing/unknown serializer that reads the reply, is already gone, or stalls"),
 ]
+
+
+def EXTRA(tier, seed):
+    """no connection ending (for whatever hostile input) strands a worker: every accepted job is served once and its worker returns to the pool, for every interleaving of connections ending and arriving (schedule BMC of the real Pool/Worker code, shared with C18)"""
+    from harness import C18_pool
+    cfgs = [(1, 1, 1, False, 32, True), (1, 1, 2, False, 44, True)] if tier == "quick" else \
+        [(1, 1, 1, False, 36, True), (1, 1, 2, False, 56, True), (1, 2, 2, False, 56, True)]
+    return C18_pool.pool_extra("C05", cfgs)
